@@ -5,6 +5,7 @@ package main
 // interfaces), and the projection of a Go value back to a Gallina literal of Encrypt.v with symbolic leaves.
 
 import (
+	"encoding/json"
 	"fmt"
 	"reflect"
 	"sort"
@@ -47,12 +48,24 @@ type V struct {
 	Hand   string   `json:"hand,omitempty"` // name of the hand-written type
 }
 
+// the text of canary c; some canaries LOOK like values the filter produced (they are plaintext all the same)
 func canary(c int) string {
 	if c == 0 {
 		return ""
 	}
+	switch {
+	case c%7 == 3:
+		return fmt.Sprintf("encrypted:cnry%05dz", c)
+	case c%7 == 5:
+		return fmt.Sprintf("hmac-sha256:cnry%05dz", c)
+	case c%11 == 4:
+		return fmt.Sprintf("[REDACTED]cnry%05dz", c)
+	}
 	return fmt.Sprintf("cnry%05dz", c)
 }
+
+// named string types (not among the kinds the filter supports: they are values it must leave alone)
+type Role string
 
 // ---------- hand-written types ----------
 type TMap map[string]interface{}
@@ -176,6 +189,8 @@ var (
 	tWStr   = reflect.TypeOf(wrapperspb.StringValue{})
 	tWBytes = reflect.TypeOf(wrapperspb.BytesValue{})
 	tTMap   = reflect.TypeOf(TMap{})
+	tJNum   = reflect.TypeOf(json.Number(""))
+	tRole   = reflect.TypeOf(Role(""))
 )
 
 func typeOf(v *V) reflect.Type {
@@ -194,6 +209,10 @@ func typeOf(v *V) reflect.Type {
 		return tWBytes
 	case "int":
 		return tInt
+	case "jnum":
+		return tJNum
+	case "role":
+		return tRole
 	case "bool":
 		return tBool
 	case "time":
@@ -271,6 +290,10 @@ func valueOf(v *V) reflect.Value {
 		return r
 	case "int":
 		return reflect.ValueOf(int(v.I))
+	case "jnum":
+		return reflect.ValueOf(json.Number(strconv.FormatInt(v.I, 10)))
+	case "role":
+		return reflect.ValueOf(Role(fmt.Sprintf("role%d", v.I)))
 	case "bool":
 		return reflect.ValueOf(v.I != 0)
 	case "time":
@@ -388,6 +411,15 @@ func (p *projector) lit(rv reflect.Value) string {
 		}
 		return "(VPtr (Some " + p.lit(rv.Elem()) + "))"
 	case reflect.String:
+		switch rv.Type() {
+		case tJNum:
+			n, _ := strconv.ParseInt(rv.String(), 10, 64)
+			return "(VOther " + hc.Z(n) + ")"
+		case tRole:
+			var n int64 = -1
+			fmt.Sscanf(rv.String(), "role%d", &n)
+			return "(VOther " + hc.Z(1000000+n) + ")"
+		}
 		return "(VLeaf LStr " + p.cl.classify(rv.String()) + ")"
 	case reflect.Int, reflect.Int64:
 		return "(VOther " + hc.Z(rv.Int()) + ")"
